@@ -110,6 +110,17 @@ def extrapolation_matches_reference(sid_templates, to_extrapolate, result):
     STATE["last"] = {"expected": exp, "got": got, "judged": judged}
     if not judged:
         rec.unspec("type_name_separators")
+        # still decidable there: explicit types keep their template and relative order, and "nothing else is added" -
+        # a generated template is a '/'-prefix of the template of a type that IS listed for extrapolation
+        explicit = [(n, t) for n, t in got if n in sid_templates]
+        if explicit != list(sid_templates.items()):
+            return False
+        listed = [t for n, t in sid_templates.items() if n in to_extrapolate]
+        for n, t in got:
+            if n not in sid_templates and not any(lt.startswith(t + "/") for lt in listed):
+                STATE["last"]["note"] = "generated %r -> %r is no prefix of a listed type's template" % (n, t)
+                return False
+        rec.count("weak_clause_judged")
         return True
     if len(set(n for n, _ in got)) != len(got):
         return False
